@@ -108,6 +108,7 @@ type podSpec struct {
 type plugWorld struct {
 	kube     *kubefake.Clientset
 	gcli     *fakeGalaxyCli.Clientset
+	hgcli    *hookedCli // gcli behind the stand-in for the API server's cached read path (yieldcli.go)
 	slog     *storeLog
 	plugin   *schedulerplugin.FloatingIPPlugin
 	cloud    *fakeCloud
@@ -170,6 +171,7 @@ func newPlugWorld(provider bool, nodes map[string]string, confText string) (*plu
 	w.kube = kubefake.NewSimpleClientset()
 	w.gcli = fakeGalaxyCli.NewSimpleClientset()
 	w.gcli.PrependReactor("*", "floatingips", w.slog.react)
+	w.hgcli = &hookedCli{Interface: w.gcli}
 	for name, ip := range nodes {
 		_, _ = w.kube.CoreV1().Nodes().Create(context.TODO(), &corev1.Node{ObjectMeta: metav1.ObjectMeta{Name: name},
 			Status: corev1.NodeStatus{Addresses: []corev1.NodeAddress{{Type: corev1.NodeInternalIP, Address: ip}}}}, metav1.CreateOptions{})
@@ -226,7 +228,7 @@ func newPlugWorld(provider bool, nodes map[string]string, confText string) (*plu
 
 // startPlugin builds a NEW FloatingIPPlugin over the same fake API servers (a process start)
 func (w *plugWorld) startPlugin() error {
-	ctx := ipamcontext.NewIPAMContext(w.kube, w.gcli, extensionfake.NewSimpleClientset(),
+	ctx := ipamcontext.NewIPAMContext(w.kube, w.hgcli, extensionfake.NewSimpleClientset(),
 		dynamicfake.NewSimpleDynamicClient(runtime.NewScheme()))
 	ctx.PodLister = corelister.NewPodLister(w.podIdx)
 	ctx.StatefulSetLister = appslister.NewStatefulSetLister(w.stsIdx)
@@ -672,6 +674,7 @@ func pluginHistory(c map[string]interface{}) map[string]interface{} {
 	for _, op := range ops {
 		opm := op.(map[string]interface{})
 		o := Guarded(20*time.Second, func() map[string]interface{} {
+			w.hgcli.tick()
 			r := w.runOp(opm)
 			r["dump"] = w.dump()
 			return r
